@@ -4,7 +4,8 @@
      spec <10 fields> / cid <10 fields>       (appended to the spec / identifier tables)
      matrix                                   -> one line per spec: m <outcome per cid: 1 0 p u>
      reset                                    (clears the tables)
-     site <form> <kind> <parent> <instr> <reg> <calleePkg> <calleeName> <calleeRecv> <ifaceType> <addrTaken> <wrapper> <n> (<pkg> <name> <recv>)*
+     aliasprefix <p>                          (how the real code renders the package of alias labels: "package " or "")
+     site <form> <kind> <parent> <instr> <reg> <calleePkg> <calleeName> <calleeRecv> <ifaceType> <addrTaken> <wrapper> <aliasPrefix> <n> (<pkg> <name> <recv>)*
      rawsite                                  (a call without generator knowledge: only its facts are known)
      facts <kind> <parent> <instr> <isInvoke> <valueName> <valueType> <methodName> <calleePkg -|+p> <sigRecv> <n> (<-|+p> <name>)*
                                               -> facts ok | facts diff <model facts>     (compares with factsOf of the last site)
@@ -71,13 +72,13 @@ def parseAliases : List String → Option (List (Option String × String))
   | _ => none
 
 def parseSite : List String → Option Site
-  | form :: kind :: parent :: instr :: reg :: cp :: cn :: cr   :: it :: adt :: wr :: _n :: rest => do
+  | form :: kind :: parent :: instr :: reg :: cp :: cn :: cr   :: it :: adt :: wr :: ap :: _n :: rest => do
     let f ← parseForm form
     let k ← parseKind kind
     let impls ← parseFns rest
     some { form := f, kind := k, parent := parent, instr := instr, reg := reg,
            callee := { pkgPath := cp, name := cn, recv := cr }, impls := impls, ifaceType := it,
-           addrTaken := adt == "1", wrapperName := wr }
+           addrTaken := adt == "1", wrapperName := wr, aliasPrefix := ap }
   | _ => none
 
 def parseFacts : List String → Option Facts
@@ -141,6 +142,7 @@ structure St where
   pairs : Array (Nat × Option String × Fn) := #[]
   nodes : Array (NodeFacts × String) := #[]
   apairs : Array (Nat × Option String × Fn × Option (Fn × String)) := #[]
+  aliasPrefix : String := "package "
 
 def lastFacts (st : St) : Option Facts := st.sites.back?.map (·.2)
 
@@ -181,7 +183,7 @@ partial def loop (h : IO.FS.Stream) (st : St) : IO Unit := do
     loop h st
   | ["cids", "entry", wp] =>
     match lastFacts st with
-    | some f => IO.println (showCids (entryCids (wp == "1") f))
+    | some f => IO.println (showCids (entryCids (wp == "1") st.aliasPrefix f))
     | none => IO.println "bad-record cids"
     loop h st
   | ["cids", "sink", cp] =>
@@ -215,7 +217,7 @@ partial def loop (h : IO.FS.Stream) (st : St) : IO Unit := do
   | ["entrymatrix"] =>
     let specs := st.specs.toList
     for (so, f) in st.sites do
-      let model := String.ofList (specs.map fun sp => outcomeChar (anyO sp (entryCids true f)))
+      let model := String.ofList (specs.map fun sp => outcomeChar (anyO sp (entryCids true st.aliasPrefix f)))
       match so with
       | some s =>
         let truth := String.ofList (specs.map fun sp => bchar (truth [sp] s))
@@ -270,6 +272,7 @@ partial def loop (h : IO.FS.Stream) (st : St) : IO Unit := do
         bchar ((n.ty.decl.isSome) && matchB sp (nodeTruthCid n decl)))
       IO.println s!"n {model} {truth}"
     loop h st
+  | ["aliasprefix", p] => loop h { st with aliasPrefix := p }
   | ["clearspecs"] => loop h { st with specs := #[] }
   | ["reset"] => loop h {}
   | [""] => loop h st
